@@ -153,6 +153,7 @@ type winner struct {
 	watchCtx  context.Context // what Watch was given: a well-behaved watcher lives and reports under it
 	entered   chan struct{}   // non-nil: Value announces itself and waits for gate (overlapped SetSource calls)
 	gate      chan struct{}
+	live      *atomic.Int64 // watchers whose Watch context has not ended yet
 }
 
 func (w *winner) Value(_ context.Context, t *dials.Type) (reflect.Value, error) {
@@ -176,6 +177,11 @@ func (w winnerW) Watch(ctx context.Context, t *dials.Type, wa dials.WatchArgs) e
 	w.typ = t
 	w.wa = wa
 	w.watchCtx = ctx
+	if w.live != nil {
+		// like a real watcher: a goroutine that lives until the context Watch was given ends
+		w.live.Add(1)
+		go func() { <-ctx.Done(); w.live.Add(-1) }()
+	}
 	return nil
 }
 
@@ -285,6 +291,24 @@ func runWrapCase(c wcase) (mis []wmis) {
 	}
 	var lastStaticIn *winner
 	var lastStaticSrc dials.Source
+	// watcher goroutines started through the Blank must end with the Config context, whatever context SetSource was called
+	// with: in half of the cases that context is independent of the Config context and stays alive until the very end
+	var live atomic.Int64
+	longCalls := len(c.ID)%2 == 0
+	var late []context.CancelFunc
+	defer func() {
+		cancel()
+		dl := time.Now().Add(5 * time.Second)
+		for live.Load() > 0 && time.Now().Before(dl) {
+			time.Sleep(100 * time.Microsecond)
+		}
+		if n := live.Load(); n > 0 && longCalls {
+			mis = append(mis, wmis{len(hist), "leak", fmt.Sprintf("%d watcher goroutine(s) started through the Blank are still running after the Config context was cancelled (their Watch context was not the Config's)", n), false})
+		}
+		for _, f := range late {
+			f()
+		}
+	}()
 	mkInner := func(h wstep) *winner {
 		return &winner{a: h.A, s: h.S, via: h.Via, watcher: h.Op == "setwatcher", failWatch: h.Op == "setwatcher" && !h.Flag}
 	}
@@ -374,10 +398,18 @@ func runWrapCase(c wcase) (mis []wmis) {
 			opTimeout = 150 * time.Millisecond
 		}
 		opctx, opcancel := context.WithTimeout(ctx, opTimeout)
+		if longCalls && h.Op == "setwatcher" && alive {
+			// SetSource's own context: not derived from the Config context and not ended after the call
+			opcancel()
+			var endLater context.CancelFunc
+			opctx, endLater = context.WithTimeout(context.Background(), opTimeout+30*time.Second)
+			late = append(late, endLater)
+			opcancel = func() {}
+		}
 		switch h.Op {
 		case "setstatic", "setfailing", "setwatcher", "setagain":
 			in := &winner{a: h.A, s: h.S, via: h.Via, watcher: h.Op == "setwatcher", failWatch: h.Op == "setwatcher" && !h.Flag,
-				failValue: h.Op == "setfailing"}
+				failValue: h.Op == "setfailing", live: &live}
 			src := wsource(in, h.Wrap)
 			if h.Op == "setfailing" {
 				src = in
